@@ -411,6 +411,11 @@ func (w *lcWorld) opProposal(op kernel.Op) {
 				w.rec.Fault("upgrade.same_chain_earlier_height")
 			}
 		}
+		if p.cp == nil && cur != nil && cur.kind == "tm" && cur.valid && op.Arg(1) == 2 {
+			// the same Tendermint chain at the stub's current block: usually a height the client already tracks
+			p.kind, p.cp = "tm", cur.cp
+			w.rec.Fault("upgrade.same_chain_tracked_height")
+		}
 		if p.cp != nil {
 		} else if cur != nil && op.Arg(1) < 4 {
 			// the installed type, described by a fresh counterparty state
@@ -820,8 +825,11 @@ func (w *lcWorld) checkMetadata(p *lcProp, post map[string]string) {
 	switch p.kind {
 	case "tm":
 		hb := append(be(h.GetRevisionNumber()), be(h.GetRevisionHeight())...)
-		if _, ok := post[pre+"consensusStates/"+string(hb)+"/processedTime"]; !ok {
+		if v, ok := post[pre+"consensusStates/"+string(hb)+"/processedTime"]; !ok {
 			miss = append(miss, "processedTime")
+		} else if len(v) == 8 && beU64(v) != uint64(w.host.CurHdr.Time.UnixNano()) {
+			// the delay period of the installed height counts from the block that installed it
+			w.rec.Violate("C18", "install_metadata", p.action+":tm:processed_time_not_now", "after a successful %s the tm client %s records processing time %d for the installed height, the installing block's time is %d", p.action, p.name, beU64(v), w.host.CurHdr.Time.UnixNano())
 		}
 		if _, ok := post[pre+"iterateConsensusStates"+string(hb)]; !ok {
 			miss = append(miss, "iterationKey")
